@@ -59,6 +59,7 @@ DECL2(U32, args_get, (void*, U32, U32))
 DECL2(U32, environ_sizes_get, (void*, U32, U32))
 DECL2(U32, environ_get, (void*, U32, U32))
 DECL2(U32, clock_time_get, (void*, U32, U64, U32))
+DECL2(U32, clock_res_get, (void*, U32, U32))
 DECL2(U32, random_get, (void*, U32, U32))
 DECL2(void, proc_exit, (void*, U32))
 #define CALL(abi, name, args) ((abi) == 'p' ? wasi_snapshot_preview1__##name args : wasi_unstable__##name args)
@@ -205,6 +206,13 @@ int main(int argc, char** argv) {
             err = CALL(abi, clock_time_get, (NULL, (U32)strtoul(tok[2], 0, 10), nt > 3 ? strtoull(tok[3], 0, 10) : 1, R1));
             clock_gettime(cid, &t1);
             printf("{\"i\":%d,\"bracket\":[%ld,%ld,%ld,%ld]}\n", callno, (long)t0.tv_sec, (long)t0.tv_nsec, (long)t1.tv_sec, (long)t1.tv_nsec);
+        } else if (!strcmp(cmd, "clockres")) {
+            /* the resolution the host reports for the same clock */
+            struct timespec r; unsigned long wid = strtoul(tok[2], 0, 10);
+            clockid_t cid = wid == 1 ? CLOCK_MONOTONIC : wid == 2 ? CLOCK_PROCESS_CPUTIME_ID : wid == 3 ? CLOCK_THREAD_CPUTIME_ID : CLOCK_REALTIME;
+            clock_getres(cid, &r);
+            err = CALL(abi, clock_res_get, (NULL, (U32)wid, R1));
+            printf("{\"i\":%d,\"hostres\":[%ld,%ld]}\n", callno, (long)r.tv_sec, (long)r.tv_nsec);
         } else if (!strcmp(cmd, "clockseq")) {
             /* clockseq ABI id precision...: the calls follow each other directly (no snapshotting in between), results at BIG + 8k */
             int n = nt - 3; U32 e = 0, bad = 0; U32 wid = (U32)strtoul(tok[2], 0, 10);
